@@ -4,7 +4,7 @@
 (* core (FxJudge / FxContract) plus the elementary functions and tables    *)
 (* (FxContractT, real-valued bounds through FxReal).  Full width only.     *)
 (***************************************************************************)
-EXTENDS FxJudge, FxContractT, FxContractF, FxLaws
+EXTENDS FxJudge, FxContractT, FxContractF, FxLaws, FxContractX
 
 LMT == INSTANCE FxLowT WITH Mach <- TRUE
 FidelityAll(e) == LMT!Fid(e)
@@ -44,4 +44,19 @@ LawRelevant(pr, env, hist) == LawHyp(pr.prog, pr.regs[1], pr.regs[2], pr.regs[3]
 JudgeLaw(p, pr, env, hist) ==
    IF LawRelevant(pr, env, hist) => LawConcl(pr.prog, pr.regs[1], pr.regs[2], pr.regs[3], pr.f, LawN(pr), env)
    THEN "ok" ELSE "violation"
+
+(* ---- merged cross-configuration events (C08) ---- *)
+DecO(ot, o) == IF ot = "b6" THEN [i \in 1..6 |-> ZN(o[i])] ELSE Dec(ot, o)
+XEvent(j) ==
+   [op |-> j.op, t |-> j.t, a |-> [i \in DOMAIN j.a |-> Dec(j.t[i], j.a[i])], ot |-> j.ot, r |-> j.r, site |-> j.site, via |-> j.via, asg |-> j.asg,
+    outs |-> [i \in DOMAIN j.outs |-> [o |-> DecO(j.ot, j.outs[i].o), trap |-> j.outs[i].trap, ab |-> j.outs[i].ab]],
+    ce |-> j.ce]
+(* deviation: the compiled lookup-table functions are not constexpr (open known finding) *)
+CoversX(d, x) ==
+   d = "C08-tables-not-constexpr" /\ x.op \in TableOps /\ RuntimeAgree(x) /\ SqrtAlgosClose(x)
+   /\ \A i \in DOMAIN x.ce : x.ce[i].r \in {"ok", "rejected"}
+JudgeX(p, x) ==
+   IF p # "C08" \/ Ok_C08(x) THEN "ok"
+   ELSE IF \E d \in EnabledDeviations : CoversX(d, x) THEN CHOOSE d \in EnabledDeviations : CoversX(d, x)
+   ELSE "violation"
 =============================================================================
